@@ -113,10 +113,12 @@ def runGauge (g : Gauge) : List (Int × DistData) → Gauge
   | (now, d) :: rest => runGauge (triggerOrRevert g now d) rest
 
 /-- guards of `MsgCreateGauge` (ValidateBasic, then ValidateMsgCreateGauge), `dur`/`minDur` in nanoseconds.
-`total = 0` IS accepted (`deposit ≥ 0` holds). -/
-def createGuard (deposit : Int) (total : Nat) (start now dur minDur : Int) : Bool :=
+`total = 0` IS accepted (`deposit ≥ 0` holds).  `aux` stands for the guards that do not involve amounts or times:
+valid gauge type id, app / pool / child pools exist and are enabled, an oracle price exists for the pair
+(gauge.go:18-28, 73-109) — the harness evaluates them with the real `ValidateMsgCreateGaugeLiquidityMetaData`. -/
+def createGuard (deposit : Int) (total : Nat) (start now dur minDur : Int) (aux : Bool) : Bool :=
   decide (0 < dur) && decide (0 < deposit) && decide ((total : Int) ≤ deposit)
-    && decide (minDur ≤ dur) && decide (now ≤ start)
+    && decide (minDur ≤ dur) && decide (now ≤ start) && aux
 
 def newGauge (deposit : Int) (total : Nat) (start : Int) : Gauge :=
   { deposit := deposit, distributed := 0, triggered := 0, total := total, active := true, start := start }
@@ -252,6 +254,15 @@ def sendAll (bal : Int) : List Int → Int × List Int
       let (b, s) := sendAll bal rs
       (b, 0 :: s)
 
+/-- `DistributeExtRewardLocker` / `…Vault` share arithmetic for one position (iter.go:60-67, 136-141):
+`share = Dec(net).Quo(Dec(totalShare))`, `epochRewards = Dec(avail).Quo(Dec(daysLeft))`,
+`(share.Mul(epochRewards)).TruncateInt()`.  `totalShare = 0` or `daysLeft = 0` is a division panic. -/
+def extShare (avail daysLeft totalShare net : Int) : Int :=
+  Dec.truncateInt (Dec.mul (Dec.quo (Dec.ofInt net) (Dec.ofInt totalShare)) (Dec.quo (Dec.ofInt avail) (Dec.ofInt daysLeft)))
+
+def extPays (avail daysLeft totalShare : Int) (nets : List Int) : List Int :=
+  nets.map (extShare avail daysLeft totalShare)
+
 def setAt {α : Type} : List α → Nat → α → List α
   | [], _, _ => []
   | _ :: xs, 0, y => y :: xs
@@ -298,7 +309,7 @@ def runB (l : Ledger) : List BOp → Except String Ledger
     | .ok l' => runB l' os
 
 inductive Op where
-  | createGauge (deposit : Int) (total : Nat) (start now dur minDur : Int) (funds : Int)
+  | createGauge (deposit : Int) (total : Nat) (start now dur minDur : Int) (aux : Bool) (funds : Int)
   | createExt (amount : Int) (funds : Int)
   | fund (amount : Int)                 -- anybody may send coins to the module account
   | block (ops : List BOp)
@@ -306,8 +317,8 @@ inductive Op where
 
 /-- a rejected message leaves no trace; a panicking begin blocker is rolled back as a whole -/
 def step (l : Ledger) : Op → Ledger
-  | .createGauge deposit total start now dur minDur funds =>
-    if createGuard deposit total start now dur minDur && decide (deposit ≤ funds) then
+  | .createGauge deposit total start now dur minDur aux funds =>
+    if createGuard deposit total start now dur minDur aux && decide (deposit ≤ funds) then
       { l with bal := l.bal + deposit, gauges := l.gauges ++ [newGauge deposit total start] }
     else l
   | .createExt amount funds =>
